@@ -162,6 +162,31 @@ var Templates = []*Template{
 		},
 	},
 	{
+		// one of several identical statements goes, the one in front of an anchor:
+		// which of the identical siblings the tree differ pairs up is ambiguous,
+		// and the blank lines around them differ
+		Name:          "delete-before-anchor",
+		NonIdempotent: true,
+		Patch: func(k int) string {
+			return fmt.Sprintf("@@\n@@\n-vfOld%d()\n vfKeep%d()\n", k, k)
+		},
+		Trigger: func(k int) string { return fmt.Sprintf("vfOld%d", k) },
+		Stmt: func(r *world.PRNG, k int) string {
+			var sb strings.Builder
+			for n := r.Range(1, 4); n > 0; n-- {
+				sb.WriteString(fmt.Sprintf("vfOld%d()\n", k))
+				if r.Chance(1, 2) {
+					sb.WriteString("\n")
+				}
+				if r.Chance(1, 6) {
+					sb.WriteString("// about the next call\n")
+				}
+			}
+			sb.WriteString(fmt.Sprintf("vfKeep%d()", k))
+			return sb.String()
+		},
+	},
+	{
 		Name: "type-rename",
 		Patch: func(k int) string {
 			return fmt.Sprintf("@@\nvar T identifier\n@@\n-type VfOld%d T\n+type VfNew%d T\n", k, k)
@@ -315,6 +340,12 @@ func NearMisses(t *Template, k int) (stmts, decls []string) {
 			fmt.Sprintf("type %s = int", trig),
 			fmt.Sprintf("type %s[T any] int", trig),
 			fmt.Sprintf("var %s int", trig),
+		)
+	case "delete-before-anchor":
+		stmts = append(stmts,
+			fmt.Sprintf("%s()\nother()\nvfKeep%d()", trig, k),
+			fmt.Sprintf("vfKeep%d()\n%s()", k, trig),
+			fmt.Sprintf("%s(1)\nvfKeep%d()", trig, k),
 		)
 	case "dots-sandwich":
 		stmts = append(stmts,
